@@ -27,8 +27,6 @@
 #include "stir/ExamInfo.h"
 #include <array>
 #include <cmath>
-#include <unistd.h>
-#include <sys/wait.h>
 #include "stir/ProjDataInMemory.h"
 #include "stir/ViewSegmentNumbers.h"
 #include "stir/DiscretisedDensity.h"
@@ -95,9 +93,6 @@ struct Sink
   FILE *ops, *out, *orc;
   long checks = 0, fails = 0;
 };
-
-// the one class of input on which the schedule clause fails on the unchanged tree (see run_recon_cases)
-static const char* const KEY_RESTART = "schedule:randomised-order:start-subiteration-inside-an-iteration:subset-array-read-before-it-is-generated";
 
 struct Geo
 {
@@ -320,90 +315,22 @@ run_recon_cases(vh::Rng& rng, bool thorough, Sink& k)
                          int_list(sc).c_str());
           }
       }
-      const bool restart_inside = rnd && s0 <= N && (s0 - 1) % n != 0;
-      bool crashed = false;
-      if (!restart_inside)
+      // (runs with randomised order that start inside a full iteration indexed an empty array before the repair bfafc063a:
+      //  they are ordinary runs now; a crash there aborts this harness and is reported as such)
+      g_rand_pos = 0;
+      g_rand_scripted = true;
+      try
         {
-          g_rand_pos = 0;
-          g_rand_scripted = true;
-          try
-            {
-              if (recon.reconstruct(image) != Succeeded::yes)
-                ok = false;
-            }
-          catch (...)
-            {
-              ok = false;
-            }
-          g_rand_scripted = false;
+          if (recon.reconstruct(image) != Succeeded::yes)
+            ok = false;
         }
-      else
+      catch (...)
         {
-          // The array of the current permutation is indexed before it was ever generated: run it in a child process.
-          std::fflush(k.ops);
-          std::fflush(k.out);
-          std::fflush(k.orc);
-          std::fflush(stdout);
-          std::fflush(stderr);
-          int fd[2];
-          if (pipe(fd) != 0)
-            {
-              std::fprintf(k.out, "harness-error\n");
-              continue;
-            }
-          const pid_t pid = fork();
-          if (pid == 0)
-            {
-              close(fd[0]);
-              g_rand_pos = 0;
-              g_rand_scripted = true;
-              std::string msg;
-              try
-                {
-                  msg = recon.reconstruct(image) == Succeeded::yes ? "ok" : "no";
-                }
-              catch (...)
-                {
-                  msg = "no";
-                }
-              std::ostringstream o;
-              o << msg << " " << obj->calls.size();
-              for (std::size_t j = 0; j < obj->calls.size(); ++j)
-                o << " " << obj->calls[j] << " " << obj->rpos[j];
-              o << " end";
-              const std::string t = o.str();
-              ssize_t ignored = write(fd[1], t.c_str(), t.size());
-              (void)ignored;
-              close(fd[1]);
-              _exit(0);
-            }
-          close(fd[1]);
-          std::string got;
-          char buf[256];
-          ssize_t m;
-          while ((m = read(fd[0], buf, sizeof buf)) > 0)
-            got.append(buf, buf + m);
-          close(fd[0]);
-          int st = 0;
-          waitpid(pid, &st, 0);
-          std::vector<std::string> t = vh::split(got);
-          if (!WIFEXITED(st) || WEXITSTATUS(st) != 0 || t.size() < 3 || t.back() != "end")
-            crashed = true;
-          else
-            {
-              ok = t[0] == "ok";
-              const std::size_t cnt = std::strtoul(t[1].c_str(), nullptr, 10);
-              for (std::size_t j = 0; j < cnt && 3 + 2 * j < t.size(); ++j)
-                {
-                  obj->calls.push_back(std::atoi(t[2 + 2 * j].c_str()));
-                  obj->rpos.push_back(std::strtoul(t[3 + 2 * j].c_str(), nullptr, 10));
-                }
-            }
+          ok = false;
         }
+      g_rand_scripted = false;
       const std::vector<int>& calls = obj->calls;
-      if (restart_inside)
-        std::fprintf(k.out, "ub\n");
-      else if (!ok)
+      if (!ok)
         std::fprintf(k.out, "err\n");
       else
         std::fprintf(k.out, "%s\n", int_list(calls).c_str());
@@ -412,9 +339,7 @@ run_recon_cases(vh::Rng& rng, bool thorough, Sink& k)
       // numbers valid, and every full iteration (sub-iterations m*n+1..(m+1)*n inside s0..N) uses each subset exactly once
       ++k.checks;
       std::string why;
-      if (crashed)
-        why = "the process died";
-      else if (!ok)
+      if (!ok)
         why = "reconstruct failed";
       else
         {
@@ -445,27 +370,7 @@ run_recon_cases(vh::Rng& rng, bool thorough, Sink& k)
           std::ostringstream txt;
           txt << why << ": views=" << V << " num_subsets=" << n << " start_subset=" << ss << " start_subiteration=" << s0
               << " num_subiterations=" << N << " randomise=" << (rnd ? 1 : 0) << " subsets used: " << int_list(calls);
-          if (restart_inside)
-            std::fprintf(k.orc, "KNOWN-CANDIDATE %s %s\n", KEY_RESTART, txt.str().c_str());
-          else
-            std::fprintf(k.orc, "ORACLE-FAIL schedule of reconstruct(): %s\n", txt.str().c_str());
-        }
-      // what can still be compared with the model when the run started inside an iteration and survived: the full iterations
-      // that follow, as generated from the draws that the library consumed for them
-      if (restart_inside && !crashed && ok)
-        {
-          const int b0 = ((s0 - 1) / n + 1) * n + 1; // first sub-iteration of the next iteration
-          const int iters = b0 <= N ? (N - b0 + 1) / n : 0;
-          const std::size_t idx = b0 - s0;
-          if (iters > 0 && idx >= 1 && idx + static_cast<std::size_t>(iters) * n <= calls.size())
-            {
-              const std::size_t base = obj->rpos[idx - 1];
-              std::ostringstream d2;
-              for (int j = 0; j < iters * n; ++j)
-                d2 << " " << draw_of(base + j < g_rand_script.size() ? g_rand_script[base + j] : 12345, n, j % n);
-              std::fprintf(k.ops, "sched %d 0 1 %d%s\n", n, iters, d2.str().c_str());
-              std::fprintf(k.out, "%s\n", int_list(calls, idx, idx + static_cast<std::size_t>(iters) * n).c_str());
-            }
+          std::fprintf(k.orc, "ORACLE-FAIL schedule of reconstruct(): %s\n", txt.str().c_str());
         }
     }
 }
